@@ -178,7 +178,11 @@ def window_defect_variant(c, r):
         pm = relgen.parse_model_rows(m)
         if not pm:
             continue
-        _, mrows = pm
+        vflags, mrows = pm
+        if vflags.get("ambig") and name == "window-first-last-ignore-frame" and len(r.get("rows") or []) == len(mrows):
+            # under the recorded defect semantics the program's result depends on an unspecified choice (a take over rows
+            # that only the defect made distinct): nothing can be compared beyond the row count
+            return name
         names = r.get("names") or []
         if names != c.columns and sorted(names) == sorted(c.columns):
             used, perm = set(), []
@@ -212,6 +216,54 @@ def group_by_has_integer_term(sql):
     return False
 
 
+def _rq_frame_len(prql):
+    try:
+        return len(vh_batch([{"op": "rq", "prql": prql}])[0]["rq"]["relation"]["columns"])
+    except Exception:
+        return None
+
+
+def _cids_used(x, acc):
+    if isinstance(x, dict):
+        for k, v in x.items():
+            if k == "ColumnRef" and isinstance(v, int):
+                acc.add(v)
+            elif k in ("Select", "partition", "compute") and isinstance(v, list) and all(isinstance(i_, int) for i_ in v):
+                acc.update(v)
+            elif k == "column" and isinstance(v, int):
+                acc.add(v)
+            elif k in ("From", "with"):
+                continue              # the instance's own column list is a definition, not a use
+            else:
+                _cids_used(v, acc)
+    elif isinstance(x, list):
+        for v in x:
+            _cids_used(v, acc)
+
+
+def _join_instance_is_pruned(prql):
+    """does a relation of the program's RQ join instances of which some column is used nowhere in that relation's pipeline?
+    (`prune_inputs` then removes it from the instance before the set-operation rewrites test for a 'join over all columns')"""
+    try:
+        rq = vh_batch([{"op": "rq", "prql": prql}])[0]["rq"]
+        for rel in [t["relation"] for t in rq["tables"]] + [rq["relation"]]:
+            pl = rel["kind"].get("Pipeline") if isinstance(rel["kind"], dict) else None
+            if not pl or not any(isinstance(t, dict) and "Join" in t for t in pl):
+                continue
+            used = set()
+            _cids_used(pl, used)
+            for t in pl:
+                if "Join" in t:
+                    _cids_used(t["Join"].get("filter"), used)
+            for t in pl:
+                ref = t.get("From") if "From" in t else (t["Join"]["with"] if "Join" in t else None)
+                if ref is not None and any(cid not in used for _, cid in ref["columns"]):
+                    return True
+    except Exception:
+        pass
+    return False
+
+
 def classify(c, r, target="sql.sqlite"):
     """-> finding id (string) or None"""
     sql = r.get("sql") or ""
@@ -228,7 +280,7 @@ def classify(c, r, target="sql.sqlite"):
             return "panic-date-to-text-unwrap"
         return None
     if "append" in prql and st in ("sqlite-error", "rows-differ", "column-count"):
-        if union_misaligned(sql) or (st == "sqlite-error" and "UNION ALL do not have the same number" in det):
+        if union_misaligned(sql) or (st == "sqlite-error" and re.search(r"UNION(?: ALL)? do not have the same number", det)):
             return "append-branches-misaligned"
         # same number of explicit columns, but one branch was reordered / pruned differently (group keys first, carried sort keys,
         # a later select): recognisable only by the program shape - an append followed by a pruning or reordering transform
@@ -245,6 +297,9 @@ def classify(c, r, target="sql.sqlite"):
             re.search(r"\btake\b.*\n.*group \{[^}]*\} \((?:sort \{[^}]*\} \| )?take 1\)", prql, re.S):
         return "take-then-distinct-in-one-select"
     setop = re.search(r"\b(INTERSECT|EXCEPT)\b", sql) and re.search(r"\bjoin\b", prql) and not re.search(r"\b(intersect|remove)\b", prql)
+    if setop and st in ("sqlite-error", "rows-differ") and _join_instance_is_pruned(prql):
+        # the "join over ALL columns" test of the rewrite was made on an instance that lists only the columns the query uses
+        return "setop-rewrite-judged-on-used-columns"
     if setop and st == "sqlite-error" and "do not have the same number of result columns" in det:
         return "setop-rewrite-partial-projection"          # repaired (9b23839): listed as fixed, so this is reported
     if setop and st == "sqlite-error" and re.match(r"OperationalError: no such column: ", det):
@@ -262,6 +317,9 @@ def classify(c, r, target="sql.sqlite"):
         m = re.match(r"OperationalError: no such column: (\S+)", det)
         if m and re.search(r"\b" + re.escape(m.group(1).split(".")[-1]) + r" AS _expr_[0-9]+\b", sql) and re.search(r"\.\*|SELECT \*", sql):
             return "column-next-to-star-renamed-then-referenced-by-name"
+        if m and "." in m.group(1) and re.search(r"=\(from " + re.escape(m.group(1).split(".")[0]) + r"\b[^\n]*\bderive\b", prql):
+            # a computed column of an inline join side is spelled out in the outer query with the names of the side's own table
+            return "inline-side-compute-id-not-redirected"
         if m:
             col = m.group(1).split(".")[-1]
             if re.search(r"ORDER BY [^)]*\b" + re.escape(col) + r"\b", sql) or re.search(r"\bsort\b", prql):
@@ -295,6 +353,9 @@ def classify(c, r, target="sql.sqlite"):
     if st == "column-count":
         exp = c.columns
         names = r.get("names") or []
+        if len(set(exp)) < len(exp) and len(names) < len(exp) and re.search(r"select !\{", prql) and _rq_frame_len(prql) == len(names):
+            # the resolver's own frame (RQ relation.columns) already lacks the column: lost by the exclusion, not by the SQL back end
+            return "exclude-drops-same-named-column"
         if len(set(exp)) < len(exp) and len(names) < len(exp) and set(names) <= set(exp) | {n for n in names if n.startswith("_expr_")}:
             return "same-name-column-dropped"
         if len(names) > len(exp) and re.search(r"SELECT (?:[^()]*, )?(?:\w+\.)?\*", sql):
